@@ -313,7 +313,7 @@ func valJd(v *val.Val, depth int) J {
 	if v == nil {
 		return J{"k": "nil"}
 	}
-	if depth > 300 {
+	if depth > 110 {
 		return J{"k": "too-deep"}
 	}
 	if v.Type == nil {
